@@ -50,12 +50,10 @@ func optRoles(prog *Program) *optRolesT {
 		case sig.Results().Len() == 1 && namedIs(sig.Results().At(0).Type(), modPath, "Option") && len(sf.AnonFuncs) == 1:
 			cl := sf.AnonFuncs[0]
 			fields := map[string]bool{}
-			for _, b := range cl.Blocks {
-				for _, ins := range b.Instrs {
-					if st, ok := ins.(*ssa.Store); ok {
-						if fa, ok := st.Addr.(*ssa.FieldAddr); ok && len(cl.Params) == 1 && fa.X == ssa.Value(cl.Params[0]) {
-							fields[fieldName(fa.X.Type(), fa.Field)] = true
-						}
+			for _, path := range optionClosureStores(prog, cl) {
+				for _, st := range path.stores {
+					if st.field != "" {
+						fields[st.field] = true
 					}
 				}
 			}
@@ -78,3 +76,60 @@ func optRoles(prog *Program) *optRolesT {
 
 // optField returns the options field written by the public constructor ctor ("" if it cannot be determined).
 func optField(prog *Program, ctor string) string { return optRoles(prog).field[ctor] }
+
+// What an option closure does to the options struct it is given, per path: helpers of the module (a method of *options
+// that performs the assignment, …) are interpreted in place.
+type optStore struct {
+	field string // "" = a store somewhere other than a field of the *options argument
+	val   *Sym
+	addr  *Sym
+}
+
+type optPath struct {
+	stores []optStore
+	reads  []string // option fields read
+	sm     *Summary
+}
+
+func optionClosureStores(prog *Program, cl *ssa.Function) []optPath {
+	if len(cl.Params) != 1 {
+		return nil
+	}
+	po := paramSym(cl.Params[0])
+	ps := NewPathSim(prog)
+	ps.NoTables = true
+	ps.Inline = func(c *ssa.Function) bool { return prog.InModule(c) && c != cl }
+	var cur *optPath
+	reads := map[*pstate][]string{}
+	ps.OnInstr = func(f *ssa.Function, st *pstate, ins ssa.Instruction) {
+		if u, ok := ins.(*ssa.UnOp); ok && u.Op.String() == "*" {
+			if a := ps.sym(st, u.X); a.K == sFieldAddr && a.A.Key() == po.Key() {
+				st.trail = append(st.trail, "read:"+a.Str)
+			}
+		}
+	}
+	_ = cur
+	_ = reads
+	var out []optPath
+	for _, sm := range ps.Run(cl) {
+		op := optPath{sm: sm}
+		for _, t := range sm.St.trail {
+			if len(t) > 5 && t[:5] == "read:" {
+				op.reads = append(op.reads, t[5:])
+			}
+		}
+		for _, ev := range sm.Events() {
+			if !ev.Store {
+				continue
+			}
+			addr, val := ev.Args[0], ev.Args[1]
+			if addr.K == sFieldAddr && addr.A.Key() == po.Key() {
+				op.stores = append(op.stores, optStore{field: addr.Str, val: val, addr: addr})
+			} else {
+				op.stores = append(op.stores, optStore{val: val, addr: addr})
+			}
+		}
+		out = append(out, op)
+	}
+	return out
+}
